@@ -90,7 +90,7 @@ def run_op(rec, name, make_op, spec, d, inputs_lits, tr, cap, fitness=None, is_s
   n_exec = 0
   outcomes = set()
   def once(ch):
-    inputs = [pg.DNA(l, spec=spec) for l in inputs_lits]
+    inputs = [pg.DNA(D.ctor(l), spec=spec) for l in inputs_lits]
     for i, x in enumerate(inputs):
       x.set_metadata('generation_id', 0)
       if fitness is not None:
@@ -143,7 +143,7 @@ def seeded(rec, name, make_seeded, spec, d, inputs_lits, tr):
     outs = []
     for gseed in (11, 99, 7, 5, 3, 1):
       random.seed(gseed)
-      inputs = [pg.DNA(l, spec=spec) for l in inputs_lits]
+      inputs = [pg.DNA(D.ctor(l), spec=spec) for l in inputs_lits]
       for x in inputs:
         x.set_metadata('generation_id', 0)
       try:
@@ -223,7 +223,7 @@ def hard_item(rec, item):
     outs = []
     for gseed in (11, 99, 7, 5, 3, 1, 2, 4):
       random.seed(gseed)
-      inputs = [pg.DNA(l, spec=spec) for l in parents]
+      inputs = [pg.DNA(D.ctor(l), spec=spec) for l in parents]
       for x in inputs:
         x.set_metadata('generation_id', 0)
       before = snapshot(inputs)
@@ -267,7 +267,7 @@ def selector_item(rec, item):
       res = []
       for gseed in (5, 6):
         random.seed(gseed)
-        inputs = [pg.DNA(l, spec=spec) for l in lits]
+        inputs = [pg.DNA(D.ctor(l), spec=spec) for l in lits]
         for i, x in enumerate(inputs):
           E.set_fitness(x, fit[i])
         res.append([inputs.index(o) for o in mk(seed)(inputs)])
@@ -327,7 +327,7 @@ def expr_item(rec, item):
   tr = dict(kind='expr', spec=sname, expr=ename)
   outs = run_op(rec, f'expr.{ename}', make, spec, d, lits, tr, 600 if tier == 'thorough' else 40, fitness=fit)
   # calling the same expression object twice on the same population must not accumulate state in the population
-  inputs = [pg.DNA(l, spec=spec) for l in lits]
+  inputs = [pg.DNA(D.ctor(l), spec=spec) for l in lits]
   for i, x in enumerate(inputs):
     E.set_fitness(x, fit[i])
     x.set_metadata('generation_id', 0)
